@@ -487,7 +487,13 @@ fn cmd_print(args: &Args) {
             if rng.gen::<bool>() { for _ in 0..rng.gen_range(1..=7) { cones.push(problem::ConeSpec::Exp); } }
             p = gen::planted_with_cones(&mut rng, &gen::GenOpts::default(), 3, cones);
         }
+        if run % 5 == 3 {
+            // a sparse SDP, so that the chordal decomposition block is printed
+            p = rec_decomp::sparse_sdp(&mut rng, false, false);
+        }
+        let keep = p.settings.clone();
         p.settings = gen::random_settings(&mut rng, p.is_symmetric());
+        if run % 5 == 3 { if let (Some(a), Some(b)) = (p.settings.as_object_mut(), keep.as_object()) { for (k, v) in b { a.insert(k.clone(), v.clone()); } } }
         // infinite bounds so that the presolve line is exercised
         if rng.gen::<f64>() < 0.3 {
             let mut off = 0;
